@@ -283,7 +283,7 @@ structure CosTx where
   extOpts : Nat       -- 0 = none
   deriving Repr, DecidableEq
 
-inductive Route | direct | eip712 | eip712Legacy
+inductive Route | direct | eip712 | eip712Legacy | eip712Amino
   deriving Repr, DecidableEq
 
 /-- the payload the signature is made over, per route -/
@@ -291,12 +291,16 @@ def payload : Route → CosTx → List Nat
   | .direct, t => [t.msgs, t.memo, t.feeAmount, t.gas, t.timeout, t.granter, t.extOpts]
   | .eip712, t => [t.msgs, t.memo, t.feeAmount, t.gas]
   | .eip712Legacy, t => [t.msgs, t.memo, t.feeAmount, t.gas, t.timeout]
+  -- amino-JSON sign mode with an EIP-712 signature: the typed data wraps the amino sign document itself, fee granter
+  -- and timeout included (extension options are not part of it)
+  | .eip712Amino, t => [t.msgs, t.memo, t.feeAmount, t.gas, t.timeout, t.granter]
 
 /-- what a route refuses outright because its payload cannot carry it; `refuseGranter` = the code since the repair -/
 def admitted (refuseGranter : Bool) : Route → CosTx → Bool
   | .direct, _ => true
   | .eip712, t => t.timeout == 0 && t.extOpts == 0 && (!refuseGranter || t.granter == 0)
   | .eip712Legacy, t => (!refuseGranter || t.granter == 0)
+  | .eip712Amino, t => t.extOpts == 0
 
 /-- **every field is bound**: two transactions a route admits that have the same signed payload are the same
     transaction, up to the legacy route's own extension option (which carries the signature itself) — so changing any
